@@ -826,6 +826,11 @@ def run_check(ctx, prop, props_module, level):
         relay_sched.run_sched(ctx, prop, cov, dist)
         builder.join()
         relay_real.run_real(ctx, prop, cov, dist)
+    if ctx.violations and ctx.broken:
+        # a failing input was found although a proof/tie/harness build is broken as well: say both (ctx.finish
+        # prints the broken entries only when there is no failing input; they are in the evidence and the replay)
+        for b in ctx.broken[:4]:
+            ctx.log("broken (in addition to the failing input):", b[0], b[1], "::", str(b[2])[:300])
     cov["distinct_nontrivial"] = len(cov.pop("_distinct"))
     cov["distribution"] = dist
     cov["traces_validated_against_impl"] = cov["evaluations"]
@@ -837,7 +842,11 @@ def run_check(ctx, prop, props_module, level):
                      "provably simulates the FIFO specification + policy of the theorems, Relay/IndexSim.lean)",
                      "domain: no NUL, every line (with its newline) and the final fragment <= 131072 bytes, no "
                      "return-code marker inside a stdout line; host names shorter than LINEBUFSIZE without NUL",
-                     "one handler thread per host (as in dsh.c); interleaving between hosts is by whole stdio call"],
+                     "one handler thread per host (as in dsh.c); interleaving between hosts is by whole stdio call",
+                     "the transport's forked child never touches the stdio buffers it inherited from pdsh (it leaves "
+                     "with _exit when exec fails): a target whose command cannot be started contributes no record "
+                     "(C05.unstarted_host_writes_nothing); checked by real runs in which execvp fails (ENOENT/EACCES) "
+                     "before, between and after hosts with unterminated output, stdout to a pipe and to a file"],
         trusted_base=["Lean 4.33 kernel", "axioms: propext, Classical.choice, Quot.sound at most (audited per theorem)",
                       "hand-written model Relay/Model.lean tied to dsh.c/err.c by differential execution",
                       "Gen/Relay.lean, Gen/Cbuf.lean, Gen/Dsh.lean regenerated from /repo",
